@@ -190,6 +190,9 @@ def run(ctx):
                    "the picked state becomes Flighting, and `fresh` is `colour == Pending`")
     ctx.rule("R5", "release: shift pops only Recved entries; SendBuf::on_data_acked moves `offset` to shift()'s result and drops exactly "
                    "(result - offset) bytes; no other function removes bytes from `data`")
+    ctx.rule("R7", "a loss report is applied up to its end: in may_loss / may_lost_from the walk over map entries below `end` leaves the "
+                   "loop only after handing the rest of the range to may_lost_from (an acknowledged entry inside the range is skipped, "
+                   "not a reason to stop)")
     ctx.rule("R6", "write keeps the bytes it announces: extend_to and push_back run together; is_all_rcvd is `data.is_empty()`")
     names = variant_names(prog, SB + "::Color") or {}
     # ---------------------------------------------------------------- R1
@@ -376,6 +379,40 @@ def run(ctx):
     removers = sorted(set(removers))
     ctx.ob("R5", "SendBuf.data|bytes are removed only by on_data_acked", removers == [SB + "::SendBuf::on_data_acked"], "qrecovery/src/send/sndbuf.rs",
            "functions removing elements of SendBuf.data: %s" % removers)
+    # ---------------------------------------------------------------- R7
+    for name in (SB + "::BufMap::may_lost_from", SB + "::BufMap::may_loss"):
+        b = ctx.anchor("R7", name)
+        if not b:
+            continue
+        heads = sorted(set(v for u in b.live_blocks() for v in b.succ(u) if b.dominates(v, u)))
+        rec = set(call_blocks(b, r"BufMap::may_lost_from$"))
+        # the `Ordering::Less` arm: switch on the discriminant of a cmp() result, case -1 (255 as u8 / i8 -1)
+        less = []
+        for sbk in b.live_blocks():
+            t = b.term(sbk)
+            if t["t"] != "switch":
+                continue
+            pl = op_place(t["on"])
+            if pl is None or len(pl) != 1:
+                continue
+            for (bb, jj, rv) in b.defs_of(pl[0]):
+                if jj != "term" and rv[0] == "disc" and "cmp::Ordering" in b.local_ty(rv[1][0]):
+                    for v, tgt in t["cases"]:
+                        if int(v) in (-1, 255, 18446744073709551615, 4294967295):
+                            less.append((sbk, tgt))
+        ctx.floor("R7", "`offset < end` arms in %s" % name.split("::")[-1], len(less), 1)
+        for (sbk, tgt) in less:
+            hs = [h for h in heads if h in b.reachable_from(tgt)]
+            outside = set(x for x in b.live_blocks() if not any(h in b.reachable_from(x) for h in hs)) if hs else set()
+            r = b.reachable_from(tgt, avoid=rec | set(hs))
+            rets = set(b.return_blocks())
+            # a return reachable from the arm without passing the recursive call or the loop head = the walk stopped short
+            # (blocks of a failing debug_assert! never return and do not count)
+            leak = sorted(r & rets)
+            ctx.ob("R7", "%s|an entry below `end` never ends the walk without may_lost_from taking over" % b.short, bool(hs) and not leak, b.where(),
+                   "from the `entry.offset < end` arm (bb%d) the function can return without going round the loop again or passing may_lost_from (return blocks reached: %s) — the part of "
+                   "the lost range behind that entry keeps its Flighting colour: reported lost, never offered again, and the stream "
+                   "can never complete" % (tgt, leak[:6] or "none"))
     # ---------------------------------------------------------------- R6
     wr = ctx.anchor("R6", SB + "::SendBuf::write")
     if wr:
